@@ -84,9 +84,8 @@ TLAcquire(t) ==  \* line: self._thread_lock.acquire(blocking, timeout)
             /\ UNCHANGED round
        ELSE \* held by somebody else: a blocking acquire just waits at this control point
             /\ mode[t] # "block"
-            /\ Goto(t, "idle")                      \* return False: nothing changed
-            /\ round' = [round EXCEPT ![t] = @ + 1]
-            /\ UNCHANGED <<obj, tlOwner, tlDepth>>
+            /\ Goto(t, "refused")                   \* acquire() is going to return False: nothing changed
+            /\ UNCHANGED <<round, tlOwner, tlDepth>>
     /\ UNCHANGED <<obj, mode, depthT, counter, fd, tmpfd, klock, ofd, nextid, alive, inside, nfault>>
 
 IncCounter(t) == \* self._lock_counter += 1 ; if self.is_locked: return True
@@ -153,9 +152,14 @@ Cleanup(t) ==    \* _cleanup_thread_lock(): counter -= 1 (not below 0); thread l
        /\ counter' = [counter EXCEPT ![o] = IF @ > 0 THEN @ - 1 ELSE 0]
        /\ tlDepth' = [tlDepth EXCEPT ![o] = @ - 1]
        /\ tlOwner' = [tlOwner EXCEPT ![o] = IF tlDepth[o] = 1 THEN None ELSE @]
+    /\ Goto(t, "refused")
+    /\ UNCHANGED <<obj, mode, round, depthT, fd, tmpfd, klock, ofd, nextid, alive, inside, nfault>>
+
+Refused(t) ==    \* acquire() returns False to its caller (nothing is held, nothing was left behind)
+    /\ Live(t) /\ pc[t] = "refused"
     /\ Goto(t, "idle")
     /\ round' = [round EXCEPT ![t] = @ + 1]
-    /\ UNCHANGED <<obj, mode, depthT, fd, tmpfd, klock, ofd, nextid, alive, inside, nfault>>
+    /\ UNCHANGED <<obj, mode, depthT, tlOwner, tlDepth, counter, fd, tmpfd, klock, ofd, nextid, alive, inside, nfault>>
 
 Acquired(t) ==   \* acquire() returned True: enter the critical section, or nest once more
     /\ Live(t) /\ pc[t] = "acquired"
@@ -232,7 +236,7 @@ Crash(p) ==      \* SIGKILL: the kernel closes every descriptor of the process
 
 \* ------------------------------------------------------------------
 Step(t) == \/ Start(t) \/ TLAcquire(t) \/ IncCounter(t) \/ OsOpen(t) \/ OsLock(t) \/ SetFd(t) \/ CloseFail(t)
-           \/ Check(t) \/ Cleanup(t) \/ Acquired(t) \/ Leave(t) \/ RelCheck(t) \/ RelDecide(t)
+           \/ Check(t) \/ Cleanup(t) \/ Refused(t) \/ Acquired(t) \/ Leave(t) \/ RelCheck(t) \/ RelDecide(t)
            \/ OsUnlock(t) \/ OsClose(t) \/ TLRelease(t) \/ RelDone(t)
 AllDone == \A t \in Threads : ~Live(t) \/ (pc[t] = "idle" /\ round[t] = Rounds)
 Done == AllDone /\ UNCHANGED vars
